@@ -2,19 +2,28 @@
    Nothing but statements closed by [exact], each followed by Print Assumptions.
 
    Vocabulary (coq/model/Pool.v; the code mirrored is /repo/chpool and puddle v2.2.2):
+     cfg        MaxConns, MinConns, MaxConnLifetime, MaxConnIdleTime (any values: the theorems hold for every MinConns);
      pool       resources ever constructed ([ress], index = connection id; status RIdle | RAcquired |
-                RDestroying (Destroy called, goroutine pending, token still held) | RClosing (removed after
-                Close, destructor pending) | RDead; creation time, last use, [r_cclosed] = ch.Client.closed),
-                the idle stack, the handles (chpool.Client.res, by handle id), the running health check
-                ([hc]: its `now` and the resources it still has to visit), closed flag, clock;
+                RDestroying (Destroy called, goroutine pending, token still held, still counted by Stat) | RClosing
+                (removed after Close, destructor pending) | RDead; creation time, last use, [r_cclosed] =
+                ch.Client.closed), the idle stack, the handles (chpool.Client.res, by handle id), the tick in progress
+                ([hc]: its `now` and the resources it still has to visit; Some (t, []) = checkMinConns is next), the
+                goroutines checkMinConns has started ([spawned]), the CreateResource calls in flight ([constructing]:
+                they hold a token and are counted by Stat), [ghosts] (resources constructed after Close: puddle
+                destructs them but keeps counting them), closed flag, clock;
+     pnew c ds  newPool: createIdleResources = MinConns CreateResource calls with dial outcomes [ds]; the first
+                failure closes the pool ([pnew_ok] = New returned no error);
      pop        PAcquire dial_ok | PRelease h | PDo h kind closes | PPing h | PPoolDo .. | PPoolPing ..
-                | PTickBegin | PTickStep | PAdvance dt | PFinish r | PClose.  What ch.Client does with a
-                request ([closes]), whether a dial succeeds, when time passes, when a goroutine started by
-                puddle finishes (PFinish) and how the health check interleaves with holders are all chosen
-                by the history: the theorems hold for every history, any number of handles;
+                | PTickBegin | PTickStep | PCheckMin | PSpawnBegin | PSpawnEnd i dial_ok | PAdvance dt | PFinish r
+                | PClose.  What ch.Client does with a request ([closes]), whether a dial succeeds, when time
+                passes, when a goroutine started by puddle finishes (PFinish), when a goroutine started by
+                checkMinConns enters CreateResource (PSpawnBegin) and when its dial returns (PSpawnEnd), and how the
+                health check interleaves with holders are all chosen by the history: the theorems hold for every
+                history, any number of handles;
      prun       runs a history; [None] = puddle panics (Value / Release / Destroy on a resource that is not
                 acquired, "bug: semaphore allowed more acquires than pool allows");
-     handle_of  the resource a handle holds;  status_of / get_res  a resource;  total / stat_*  puddle Stat().
+     handle_of  the resource a handle holds;  status_of / get_res  a resource;  total / stat_*  puddle Stat();
+     live       idle + held connections;  destroying  connections whose Destroy goroutine has not finished.
    The model mirrors chpool AFTER the repair of Client.Release (/repo commit "fix: chpool.Client.Release gives
    up its resource ..."): before it the first three statements are false (Acquire; Release; Acquire;
    Release(old handle) puts two handles on one connection; a repeated destroying Release panics in puddle). *)
@@ -23,55 +32,59 @@ From Coq Require Import List NArith Bool.
 Import ListNotations.
 Open Scope nat_scope.
 
-(* pool_inv: EVERY history runs without a puddle panic and ends in a state satisfying the invariant
-   [pinv] (P1 an acquired resource has exactly one owner - a handle or the health check -, handles are
-   injective, an idle resource has none and its client is open; P2 idle + tokens held <= MaxConns;
-   a dead resource's client is closed) and [cinv] (a closed pool has no idle resource). *)
-Theorem pool_inv : forall c ops, exists p, prun (pinit c) ops = Some p /\ pinv p /\ cinv p.
+(* pool_inv: EVERY history after EVERY New (any MinConns, any dial outcomes) runs without a puddle panic and ends
+   in a state satisfying the invariant [pinv] (P1 an acquired resource has exactly one owner - a handle or the
+   health check -, handles are injective, an idle resource has none and its client is open; P2 idle + tokens held
+   (creations in flight included) + ghosts <= MaxConns; a dead resource's client is closed; ghosts only in a
+   closed pool) and [cinv] (a closed pool has no idle resource and no tick in progress). *)
+Theorem pool_inv : forall c dials ops, exists p, prun (pnew c dials) ops = Some p /\ pinv p /\ cinv p.
 Proof. exact h_pool_inv. Qed.
 Print Assumptions pool_inv.
 
 (* at most one holder: two handles never hold the same resource, and a held resource is acquired,
    not on the idle stack and not in the hands of the health check *)
-Theorem one_holder : forall c ops p h1 h2 r, prun (pinit c) ops = Some p ->
+Theorem one_holder : forall c dials ops p h1 h2 r, prun (pnew c dials) ops = Some p ->
   handle_of p h1 = Some r -> handle_of p h2 = Some r ->
   h1 = h2 /\ status_of p r = Some RAcquired /\ ~ In r (hc_pending p) /\ ~ In r (idle p).
 Proof. exact h_one_holder. Qed.
 Print Assumptions one_holder.
 
-(* the number of open connections in the pool never exceeds MaxConns (Stat: total = idle + acquired) *)
-Theorem total_le_max : forall c ops p, prun (pinit c) ops = Some p ->
-  total p <= c_max c /\ total p = stat_idle p + stat_acquired p /\ stat_idle p = length (idle p).
+(* the number of resources in the pool - creations in flight included - never exceeds MaxConns
+   (Stat: total = idle + acquired + constructing; Stat's idle = the idle stack, plus, in a closed pool only,
+   the resources CreateResource finished after Close) *)
+Theorem total_le_max : forall c dials ops p, prun (pnew c dials) ops = Some p ->
+  total p <= c_max c /\ total p = stat_idle p + stat_acquired p + stat_constructing p /\
+  stat_idle p = length (idle p) + ghosts p /\ (pclosed p = false -> ghosts p = 0).
 Proof. exact h_total_le_max. Qed.
 Print Assumptions total_le_max.
 
 (* what Acquire hands out: a resource no other handle holds, acquired, whose client is open *)
-Theorem acquire_hands_out_live_unshared : forall c ops p d p', prun (pinit c) ops = Some p ->
+Theorem acquire_hands_out_live_unshared : forall c dials ops p d p', prun (pnew c dials) ops = Some p ->
   pstep p (PAcquire d) = POk p' OOk ->
   exists r x, handle_of p' (length (handles p)) = Some r /\ get_res p' r = Some x /\
               r_status x = RAcquired /\ r_cclosed x = false /\ (forall h, handle_of p h <> Some r).
-Proof. exact (fun c ops p d p' H => acquire_gives_open p d p' (hist_good c ops p H)). Qed.
+Proof. exact (fun c dials ops p d p' H => acquire_gives_open p d p' (hist_good c dials ops p H)). Qed.
 Print Assumptions acquire_hands_out_live_unshared.
 
 (* a connection released with a closed client or past its lifetime is destroyed, and in EVERY later
    history it stays destroyed: no handle ever holds it again, it is never idle again *)
-Theorem released_dead_never_reissued : forall c ops p h r x, prun (pinit c) ops = Some p ->
+Theorem released_dead_never_reissued : forall c dials ops p h r x, prun (pnew c dials) ops = Some p ->
   handle_of p h = Some r -> get_res p r = Some x ->
   r_cclosed x = true \/ expired_life (p_cfg p) (now p) (r_created x) = true ->
   exists p', pstep p (PRelease h) = POk p' OOk /\ status_of p' r = Some RDestroying /\
     forall later p'', prun p' later = Some p'' ->
       (exists x'', get_res p'' r = Some x'' /\ gone (r_status x'') = true) /\
       (forall h', handle_of p'' h' <> Some r) /\ ~ In r (idle p'') /\ ~ In r (hc_pending p'').
-Proof. exact (fun c ops p h r x H => release_dead_destroys p h r x (hist_good c ops p H)). Qed.
+Proof. exact (fun c dials ops p h r x H => release_dead_destroys p h r x (hist_good c dials ops p H)). Qed.
 Print Assumptions released_dead_never_reissued.
 
 (* destroyed is absorbing, from any reachable state, and a closed client stays closed *)
-Theorem destroyed_is_absorbing : forall c ops p r x later p', prun (pinit c) ops = Some p ->
+Theorem destroyed_is_absorbing : forall c dials ops p r x later p', prun (pnew c dials) ops = Some p ->
   get_res p r = Some x -> gone (r_status x) = true -> prun p later = Some p' ->
   exists x', get_res p' r = Some x' /\ gone (r_status x') = true /\
              (r_cclosed x = true -> r_cclosed x' = true) /\
              (forall h, handle_of p' h <> Some r) /\ ~ In r (idle p') /\ ~ In r (hc_pending p').
-Proof. exact (fun c ops p r x later p' H => gone_forever p r x later p' (hist_good c ops p H)). Qed.
+Proof. exact (fun c dials ops p r x later p' H => gone_forever p r x later p' (hist_good c dials ops p H)). Qed.
 Print Assumptions destroyed_is_absorbing.
 
 (* Release clears the handle; releasing a handle that holds nothing (again, or never acquired) changes
@@ -79,31 +92,46 @@ Print Assumptions destroyed_is_absorbing.
 Theorem repeated_release_is_noop :
   (forall p h p' o, pstep p (PRelease h) = POk p' o -> handle_of p' h = None) /\
   (forall p h, handle_of p h = None -> pstep p (PRelease h) = POk p OOk) /\
-  (forall c ops p h p' o, prun (pinit c) ops = Some p -> pstep p (PRelease h) = POk p' o ->
+  (forall c dials ops p h p' o, prun (pnew c dials) ops = Some p -> pstep p (PRelease h) = POk p' o ->
      forall h', h' <> h -> handle_of p' h' = handle_of p h' /\
        forall r', handle_of p h' = Some r' -> get_res p' r' = get_res p r').
 Proof.
   exact (conj release_clears (conj release_again_noop
-          (fun c ops p h p' o H => release_others_untouched p h p' o (hist_good c ops p H)))).
+          (fun c dials ops p h p' o H => release_others_untouched p h p' o (hist_good c dials ops p H)))).
 Qed.
 Print Assumptions repeated_release_is_noop.
 
-(* a whole health check on an open pool destroys exactly the idle resources past their lifetime or idle
-   time, leaves the others idle, and touches no handle and no other resource *)
-Theorem tick_destroys_expired_idle : forall c ops p, prun (pinit c) ops = Some p ->
+(* a whole tick (idle pass, then checkMinConns) on an open pool, for EVERY MinConns: exactly the idle resources
+   past their lifetime or idle time are destroyed - no matter how few resources that leaves -, the others stay idle,
+   no handle and no other resource is touched; Stat's total is unchanged (a resource being destroyed is still
+   counted) and checkMinConns has started MinConns - total goroutines *)
+Theorem tick_destroys_expired_idle : forall c dials ops p, prun (pnew c dials) ops = Some p ->
   hc p = None -> pclosed p = false ->
   exists p', tick_full p = Some p' /\ hc p' = None /\ pgood p' /\
     (forall r x, In r (idle p) -> get_res p r = Some x ->
        if expired_life (p_cfg p) (now p) (r_created x) || expired_idle (p_cfg p) (now p) (r_lastused x)
        then status_of p' r = Some RDestroying
        else status_of p' r = Some RIdle /\ In r (idle p')) /\
-    (forall r, ~ In r (idle p) -> get_res p' r = get_res p r) /\ handles p' = handles p.
-Proof. exact (fun c ops p H => tick_full_spec p (hist_good c ops p H)). Qed.
+    (forall r, ~ In r (idle p) -> get_res p' r = get_res p r) /\ handles p' = handles p /\
+    total p' = total p /\ constructing p' = constructing p /\
+    spawned p' = spawned p + (c_min (p_cfg p) - total p).
+Proof. exact (fun c dials ops p H => tick_full_spec p (hist_good c dials ops p H)). Qed.
 Print Assumptions tick_destroys_expired_idle.
+
+(* in particular at the MinConns floor: an idle connection past its lifetime or idle time is destroyed by the tick
+   although the pool holds no more than MinConns resources - it is not kept to satisfy MinConns -, and no handle
+   holds it afterwards *)
+Theorem expired_idle_is_destroyed_at_the_floor : forall c dials ops p r x, prun (pnew c dials) ops = Some p ->
+  hc p = None -> pclosed p = false -> total p <= c_min (p_cfg p) -> In r (idle p) -> get_res p r = Some x ->
+  expired_life (p_cfg p) (now p) (r_created x) = true \/ expired_idle (p_cfg p) (now p) (r_lastused x) = true ->
+  exists p', tick_full p = Some p' /\ status_of p' r = Some RDestroying /\ ~ In r (idle p') /\
+    (forall h, handle_of p' h <> Some r) /\ total p' = total p.
+Proof. exact (fun c dials ops p r x H => expired_idle_destroyed_at_floor p r x (hist_good c dials ops p H)). Qed.
+Print Assumptions expired_idle_is_destroyed_at_the_floor.
 
 (* the same for one iteration of the health check's loop, in any reachable state (holders may have run
    since the health check took the idle resources) *)
-Theorem tick_step_judges_one : forall c ops p t0 r rest x, prun (pinit c) ops = Some p ->
+Theorem tick_step_judges_one : forall c dials ops p t0 r rest x, prun (pnew c dials) ops = Some p ->
   hc p = Some (t0, r :: rest) -> get_res p r = Some x ->
   exists p', tick_step p = POk p' ONone /\ hc p' = hc_rest t0 rest /\ now p' = now p /\ p_cfg p' = p_cfg p /\
     pclosed p' = pclosed p /\ handles p' = handles p /\
@@ -111,37 +139,98 @@ Theorem tick_step_judges_one : forall c ops p t0 r rest x, prun (pinit c) ops = 
     (forall r', In r' (idle p) -> In r' (idle p')) /\
     (if tick_verdict (p_cfg p) t0 (now p) x then status_of p' r = Some RDestroying
      else status_of p' r = Some RIdle /\ In r (idle p')).
-Proof. exact (fun c ops p t0 r rest x H => tick_step_spec p t0 r rest x (hist_good c ops p H)). Qed.
+Proof. exact (fun c dials ops p t0 r rest x H => tick_step_spec p t0 r rest x (hist_good c dials ops p H)). Qed.
 Print Assumptions tick_step_judges_one.
+
+(* MinConns: from any reachable state in which checkMinConns is about to run, checkMinConns, then every goroutine it
+   started entering CreateResource, then every creation in flight completing with a successful dial leave the
+   pool open with at least min(MinConns, MaxConns) resources, none under construction; the resources that
+   existed are as they were.  The count is puddle's: it includes the connections whose Destroy goroutine had not
+   finished when checkMinConns read Stat(); all others are live (idle or held) connections *)
+Theorem min_conns_restored : forall c dials ops p t0, prun (pnew c dials) ops = Some p -> hc p = Some (t0, []) ->
+  exists p1 p2, prun (check_min p) (repeat PSpawnBegin (spawned (check_min p))) = Some p1 /\
+    prun p1 (repeat (PSpawnEnd 0 true) (length (constructing p1))) = Some p2 /\
+    pgood p2 /\ hc p2 = None /\ pclosed p2 = false /\ spawned p2 = 0 /\ constructing p2 = [] /\ ghosts p2 = 0 /\
+    handles p2 = handles p /\
+    Nat.min (c_min (p_cfg p)) (c_max (p_cfg p)) <= total p2 /\
+    total p2 = live p2 + destroying p2 /\ destroying p2 = destroying p /\
+    (forall r x, get_res p r = Some x -> get_res p2 r = Some x).
+Proof. exact (fun c dials ops p t0 H => check_min_restores p t0 (hist_good c dials ops p H)). Qed.
+Print Assumptions min_conns_restored.
+
+(* ... and the whole tick with what it starts: the expired idle connections are destroyed and not kept to satisfy
+   MinConns; they are replaced by new ones as far as puddle's count allows *)
+Theorem tick_destroys_then_refills : forall c dials ops p, prun (pnew c dials) ops = Some p ->
+  hc p = None -> pclosed p = false ->
+  exists p0 p1 p2, tick_pass p = Some p0 /\ hc p0 = Some (now p, []) /\
+    prun (check_min p0) (repeat PSpawnBegin (spawned (check_min p0))) = Some p1 /\
+    prun p1 (repeat (PSpawnEnd 0 true) (length (constructing p1))) = Some p2 /\
+    pgood p2 /\ hc p2 = None /\ pclosed p2 = false /\ spawned p2 = 0 /\ constructing p2 = [] /\ handles p2 = handles p /\
+    Nat.min (c_min (p_cfg p)) (c_max (p_cfg p)) <= total p2 /\
+    total p2 = live p2 + destroying p2 /\ destroying p2 = destroying p0 /\
+    (forall r x, In r (idle p) -> get_res p r = Some x ->
+       if tick_verdict (p_cfg p) (now p) (now p) x then status_of p2 r = Some RDestroying
+       else status_of p2 r = Some RIdle) /\
+    (forall r x, ~ In r (idle p) -> get_res p r = Some x -> get_res p2 r = Some x).
+Proof. exact (fun c dials ops p H => tick_restores p (hist_good c dials ops p H)). Qed.
+Print Assumptions tick_destroys_then_refills.
+
+(* New: when it succeeds the pool is open with exactly MinConns idle connections (and MinConns <= MaxConns); when
+   a dial fails, or MinConns > MaxConns, the pool it had begun to fill is closed and holds no idle connection
+   (close_release_all_closes_everything with an empty history: what it had dialed gets closed) *)
+Theorem new_pool_spec : forall c dials,
+  if pnew_ok c dials
+  then let p := pnew c dials in
+       pclosed p = false /\ c_min c <= c_max c /\ total p = c_min c /\ length (idle p) = c_min c /\ live p = c_min c /\
+       handles p = [] /\ hc p = None /\ spawned p = 0 /\ constructing p = []
+  else pclosed (pnew c dials) = true /\ idle (pnew c dials) = [] /\ handles (pnew c dials) = [] /\ hc (pnew c dials) = None.
+Proof. exact pnew_spec. Qed.
+Print Assumptions new_pool_spec.
 
 (* after Close, once every handle has been released and the goroutines puddle started have finished,
    every connection the pool ever opened is closed *)
-Theorem closed_pool_everything_closed : forall c ops p, prun (pinit c) ops = Some p ->
+Theorem closed_pool_everything_closed : forall c dials ops p, prun (pnew c dials) ops = Some p ->
   pclosed p = true -> (forall h, handle_of p h = None) ->
   (forall r, status_of p r <> Some RDestroying /\ status_of p r <> Some RClosing) ->
   forall r x, get_res p r = Some x -> r_status x = RDead /\ r_cclosed x = true.
-Proof. exact (fun c ops p H => closed_released_all_closed p (hist_good c ops p H)). Qed.
+Proof. exact (fun c dials ops p H => closed_released_all_closed p (hist_good c dials ops p H)). Qed.
 Print Assumptions closed_pool_everything_closed.
 
-(* ... and that state is always within reach: from EVERY reachable state in which the health check is
-   not in the middle of a round, Close, a Release of every handle and the end of every goroutine puddle
-   started leave the pool empty and every connection it ever opened closed *)
-Theorem close_release_all_closes_everything : forall c ops p, prun (pinit c) ops = Some p -> hc p = None ->
-  exists p', prun p (PClose :: map PRelease (seq 0 (length (handles p))) ++ map PFinish (seq 0 (length (ress p)))) = Some p' /\
-    length (ress p') = length (ress p) /\ total p' = 0 /\
+(* ... and when no creation is in flight either, that is final: in every later history the closed pool stays
+   closed and never dials again *)
+Theorem closed_pool_never_dials : forall c dials ops p later p', prun (pnew c dials) ops = Some p ->
+  pclosed p = true -> constructing p = [] -> prun p later = Some p' ->
+  pclosed p' = true /\ constructing p' = [] /\ length (ress p') = length (ress p).
+Proof. exact (fun c dials ops p later p' H => closed_pool_dials_no_more later p p' (hist_good c dials ops p H)). Qed.
+Print Assumptions closed_pool_never_dials.
+
+(* that state is always within reach: from EVERY reachable state in which no tick is in progress, Close, a
+   Release of every handle, every goroutine of checkMinConns running, every creation in flight completing -
+   whatever its dial does: a connection dialed for a pool that has been closed meanwhile is handed to the
+   destructor -, and the end of every goroutine puddle started leave nothing in flight and every connection the
+   pool ever opened closed (what Stat still counts are the resources puddle forgot to remove: [ghosts]) *)
+Theorem close_release_all_closes_everything : forall c dials0 ops p dials, prun (pnew c dials0) ops = Some p ->
+  hc p = None -> length dials = length (constructing p) ->
+  exists p', prun p (PClose :: map PRelease (seq 0 (length (handles p))) ++ repeat PSpawnBegin (spawned p) ++
+                     map (PSpawnEnd 0) dials ++ map PFinish (seq 0 (length (ress p) + length dials))) = Some p' /\
+    length (ress p') = length (ress p) + length (filter (fun d => d) dials) /\
+    spawned p' = 0 /\ constructing p' = [] /\ total p' = ghosts p' /\
     forall r x, get_res p' r = Some x -> r_status x = RDead /\ r_cclosed x = true.
 Proof. exact h_drain. Qed.
 Print Assumptions close_release_all_closes_everything.
 
-(* non-vacuity: MaxConns 1, lifetime 5.  A handle's client dies, it is released twice, the connection is
-   destroyed and a new one dialed; that one outlives its lifetime idle and the health check destroys it;
-   the pool is closed with a handle out, the handle comes back, the goroutines finish: three connections
-   were opened, all three are closed, nothing is left in the pool *)
+(* non-vacuity: MaxConns 2, MinConns 1, lifetime 5.  New dials connection 0.  It outlives its lifetime idle: the
+   tick destroys it although that empties the pool; its Destroy goroutine ends before checkMinConns looks, which
+   starts one creation: connection 1.  A holder takes it, keeps it past its lifetime and releases it: destroyed;
+   the next checkMinConns still counts it and starts nothing; the one after starts a creation; the pool is closed
+   while that dial is in flight; the dial succeeds: connection 2 goes to the destructor.  Three connections were
+   opened, all three are closed, no handle holds anything, and puddle's Stat counts one resource for ever *)
 Example c11_witness :
-  let ops := [PAcquire true; PDo 0 DCut true; PRelease 0; PRelease 0; PFinish 0;
-              PAcquire true; PRelease 1; PAdvance 9; PTickBegin; PTickStep; PFinish 1;
-              PAcquire true; PClose; PRelease 2; PRelease 1; PFinish 2] in
-  option_map (fun p => (map r_status (ress p), map r_cclosed (ress p), handles p, total p, pclosed p))
-             (prun (pinit (mkCfg 1 5 5)) ops)
-  = Some ([RDead; RDead; RDead], [true; true; true], [None; None; None], 0, true).
+  let ops := [PAdvance 9; PTickBegin; PTickStep; PFinish 0; PCheckMin; PSpawnBegin; PSpawnEnd 0 true;
+              PAcquire true; PAdvance 9; PTickBegin; PCheckMin; PRelease 0; PRelease 0;
+              PTickBegin; PCheckMin; PFinish 1; PTickBegin; PCheckMin; PSpawnBegin; PClose;
+              PSpawnEnd 0 true; PFinish 2] in
+  option_map (fun p => (map r_status (ress p), map r_cclosed (ress p), handles p, total p, ghosts p, spawned p, pclosed p))
+             (prun (pnew (mkCfg 2 1 5 5) [true]) ops)
+  = Some ([RDead; RDead; RDead], [true; true; true], [None], 1, 1, 0, true).
 Proof. vm_compute. reflexivity. Qed.
